@@ -149,6 +149,31 @@ def run(cx):
         pre = [(a, I.shorten_vars(b)) for a, b in I.stores(fn, F, 'pre')]
         want = [('0', 'fp_sqr($q.y)'), ('4', 'fp_mul($q.x, $q.z)'), ('4', "fp_double(pre[4]#{[4]'1})"), ('1', 'fp_sqr($q.z)'), ('1', "fp_mul($q.z, pre[1]#{[1]'1})"),
                 ('2', "fp_mul_fp(pre[1]#{[1]'2}, affy($p))"), ('2', "fp_double(pre[2]#{[2]'1})"), ('3', "fp_mul_fp(pre[1]#{[1]'2}, affx($p))"), ('3', "fp_double(pre[3]#{[3]'1})"), ('3', "fp_neg(pre[3]#{[3]'2})")]
+        def _cm(t_):
+            # fp_mul / fp_add of two field elements are symmetric (A-POLY decides each against its symmetric defining formula)
+            from .. import ctext as _CT
+            try:
+                e_ = _CT.parse(t_)
+            except _CT.ParseError:
+                return t_
+
+            def go(x):
+                if x[0] == 'call':
+                    a_ = [go(y) for y in x[2]]
+                    if x[1] in ('fp_mul', 'fp_add') and len(a_) == 2:
+                        a_ = sorted(a_, key=_CT.show)
+                    return ('call', x[1], a_, x[3])
+                if x[0] == 'idx':
+                    return ('idx', go(x[1]), go(x[2]), x[3])
+                if x[0] == 'cast':
+                    return ('cast', go(x[1]), x[2])
+                return x
+            try:
+                return _CT.show(go(e_))
+            except Exception:
+                return t_
+        if pre != want and [(a_, _cm(b_)) for a_, b_ in pre] == [(a_, _cm(b_)) for a_, b_ in want]:
+            pre = want
         cx.add('I-MILLER', 'pre', pre == want, 'precomputed values for the chord lines through Q: yQ^2, 2 xQ zQ, zQ^3, 2 zQ^3 yP, -2 zQ^3 xP', fn.loc(), {'got': pre})
     # ---------------------------------------------------------------- S-LINE: sibling line functions agree
     f1 = cx.fn('gm_sm9::points::sm9_u256_eval_g_line', 'S-LINE')
